@@ -309,7 +309,9 @@ func lexStmt(l *lexer) stateFn {
 
 // lexString scans a run of non-separator characters
 func lexString(l *lexer) stateFn {
-	for !isTerminator(l.peek()) {
+	// The end of the input also ends the string; without this check the
+	// lexer never leaves this loop for a text ending in an unquoted word.
+	for r := l.peek(); r != eof && !isTerminator(r); r = l.peek() {
 		l.next()
 	}
 	l.emit(itemString)
